@@ -249,6 +249,36 @@ func (P) exec(line string) string {
 			return "err"
 		}
 		return hex.EncodeToString(h)
+	case "witnil": // sigHashes == nil
+		tx := decTx(f[2])
+		h, err := txscript.VerifCalcWitnessSignatureHashRaw(unhx(f[5]), nil,
+			txscript.SigHashType(uint32(atoi(f[4]))), tx, int(atoi(f[3])), atoi(f[6]))
+		if err != nil {
+			return "err"
+		}
+		return hex.EncodeToString(h)
+	case "tapnil":
+		tx := decTx(f[2])
+		spent := decSpent(f[3])
+		var o txscript.VerifTaprootOpts
+		if f[6] != "x" {
+			o.HasAnnex = true
+			o.Annex = unhx(f[6])
+		}
+		if f[7] != "x" {
+			p := strings.Split(f[7], ":")
+			o.Tapscript = true
+			o.TapLeafHash = unhx(p[0])
+			o.CodeSepPos = uint32(atoi(p[1]))
+		}
+		h, err := txscript.VerifCalcTaprootSignatureHashRaw(nil, txscript.SigHashType(uint32(atoi(f[5]))), tx,
+			int(atoi(f[4])), mkFetcher(tx, spent), o)
+		if err != nil {
+			return "err"
+		}
+		return hex.EncodeToString(h)
+	case "hashcache":
+		return execHashCache(f[2:])
 	case "tap":
 		tx := decTx(f[2])
 		spent := decSpent(f[3])
@@ -311,6 +341,55 @@ func (P) exec(line string) string {
 		return f[7]
 	}
 	return "bad-op"
+}
+
+// hashcache ops: a:<k> AddSigHashes(tx k), g:<k> GetSigHashes(txid k), c:<k> ContainsHashes, p:<k> Purge.
+// line: hashcache <ntx> <tx0> <spent0> ... <ops...>; observation per g/c op.
+func showMid(sh *txscript.TxSigHashes) string {
+	return hex.EncodeToString(sh.HashPrevOutsV0[:]) + hex.EncodeToString(sh.HashSequenceV0[:]) +
+		hex.EncodeToString(sh.HashOutputsV0[:]) + hex.EncodeToString(sh.HashPrevOutsV1[:]) +
+		hex.EncodeToString(sh.HashSequenceV1[:]) + hex.EncodeToString(sh.HashOutputsV1[:]) +
+		hex.EncodeToString(sh.HashInputScriptsV1[:]) + hex.EncodeToString(sh.HashInputAmountsV1[:])
+}
+
+func execHashCache(f []string) string {
+	n := int(atoi(f[0]))
+	var txs []*wire.MsgTx
+	var sps [][]*wire.TxOut
+	for i := 0; i < n; i++ {
+		txs = append(txs, decTx(f[1+2*i]))
+		sps = append(sps, decSpent(f[2+2*i]))
+	}
+	c := txscript.NewHashCache(10)
+	var out []string
+	for _, op := range f[1+2*n:] {
+		p := strings.Split(op, ":")
+		k := int(atoi(p[1]))
+		txid := txs[k].TxHash()
+		switch p[0] {
+		case "a":
+			c.AddSigHashes(txs[k], mkFetcher(txs[k], sps[k]))
+		case "g":
+			sh, ok := c.GetSigHashes(&txid)
+			if ok {
+				out = append(out, showMid(sh))
+			} else {
+				out = append(out, "none")
+			}
+		case "c":
+			if c.ContainsHashes(&txid) {
+				out = append(out, "1")
+			} else {
+				out = append(out, "0")
+			}
+		case "p":
+			c.PurgeSigHashes(&txid)
+		}
+	}
+	if len(out) == 0 {
+		return "-"
+	}
+	return strings.Join(out, ",")
 }
 
 // ---------------------------------------------------------------- generation
@@ -561,7 +640,7 @@ func (P) Generate(g *core.Gen) {
 	genVectors(g)
 
 	// ---- legacy: all 256 hash types x every index (incl. out of range) on a few shapes
-	for k := 0; k < g.N(6, 60); k++ {
+	for k := 0; k < g.N(4, 30); k++ {
 		nIn, nOut := 1+r.Intn(3), r.Intn(4)
 		tx, _ := randTx(r, nIn, nOut)
 		sig := randSig(r)
@@ -574,7 +653,7 @@ func (P) Generate(g *core.Gen) {
 		}
 	}
 	// ---- legacy: random shapes
-	for k := 0; k < g.N(2500, 120000); k++ {
+	for k := 0; k < g.N(2000, 40000); k++ {
 		nIn, nOut := shapeCounts(r)
 		tx, _ := randTx(r, nIn, nOut)
 		sig := randSig(r)
@@ -600,7 +679,7 @@ func (P) Generate(g *core.Gen) {
 	}
 
 	// ---- BIP143: grid
-	for k := 0; k < g.N(6, 60); k++ {
+	for k := 0; k < g.N(4, 30); k++ {
 		nIn, nOut := 1+r.Intn(3), r.Intn(4)
 		tx, spent := randTx(r, nIn, nOut)
 		if k%3 != 0 {
@@ -618,7 +697,7 @@ func (P) Generate(g *core.Gen) {
 			}
 		}
 	}
-	for k := 0; k < g.N(2500, 120000); k++ {
+	for k := 0; k < g.N(2000, 40000); k++ {
 		nIn, nOut := shapeCounts(r)
 		tx, spent := randTx(r, nIn, nOut)
 		cls := "wit-rand"
@@ -662,7 +741,7 @@ func (P) Generate(g *core.Gen) {
 	}
 
 	// ---- BIP341/342: grid
-	for k := 0; k < g.N(6, 60); k++ {
+	for k := 0; k < g.N(4, 30); k++ {
 		nIn, nOut := 1+r.Intn(3), r.Intn(4)
 		tx, spent := randTx(r, nIn, nOut)
 		if k%3 != 0 {
@@ -683,7 +762,7 @@ func (P) Generate(g *core.Gen) {
 		}
 	}
 	validTap := []uint32{0, 1, 2, 3, 0x81, 0x82, 0x83}
-	for k := 0; k < g.N(2500, 120000); k++ {
+	for k := 0; k < g.N(2000, 40000); k++ {
 		nIn, nOut := shapeCounts(r)
 		tx, spent := randTx(r, nIn, nOut)
 		cls := "tap-rand"
@@ -719,8 +798,55 @@ func (P) Generate(g *core.Gen) {
 		g.Case(cls, idx < nIn, fmt.Sprintf("C07 tap %s %s %d %d %s %s", encTx(tx), encSpent(spent), idx, ht, annex, ext))
 	}
 
+	// ---- nil midstate: panic unless the digest never reads it
+	for k := 0; k < g.N(600, 20000); k++ {
+		nIn, nOut := 1+r.Intn(3), r.Intn(4)
+		tx, spent := randTx(r, nIn, nOut)
+		idx := r.Intn(nIn + 1)
+		ht := []uint32{0x82, 0x83, 0x82, 0x83, 0x81, 2, 3, 1, 0, 0x80, 0xa2, 0xc3, 0x9f}[r.Intn(13)]
+		if r.Chance(1, 5) {
+			ht = uint32(r.Intn(256))
+		}
+		sub := randScriptCode(r, randSig(r), false)
+		g.Case("wit-nil-midstate", idx < nIn, fmt.Sprintf("C07 witnil %s %d %d %s %d", encTx(tx), idx, ht, hx(sub), int64(r.U64()%1000000)))
+		annex, ext := "x", "x"
+		if r.Bool() {
+			annex = hx(append([]byte{0x50}, r.Bytes(r.Intn(5))...))
+		}
+		if r.Bool() {
+			ext = fmt.Sprintf("%s:%d", hx(r.Bytes(32)), r.U32())
+		}
+		g.Case("tap-nil-midstate", idx < nIn, fmt.Sprintf("C07 tapnil %s %s %d %d %s %s", encTx(tx), encSpent(spent), idx, ht, annex, ext))
+	}
+
+	// ---- HashCache: add / get / contains / purge histories over a few transactions
+	for k := 0; k < g.N(250, 8000); k++ {
+		n := 1 + r.Intn(3)
+		var toks []string
+		for i := 0; i < n; i++ {
+			tx, spent := randTx(r, r.Intn(4), r.Intn(3))
+			switch r.Intn(3) {
+			case 0:
+				forceKind(r, spent, true)
+			case 1:
+				forceKind(r, spent, false)
+			}
+			toks = append(toks, encTx(tx), encSpent(spent))
+		}
+		nops := 2 + r.Intn(8)
+		adds := 0
+		for i := 0; i < nops; i++ {
+			o := []string{"a", "a", "g", "g", "g", "c", "p"}[r.Intn(7)]
+			if o == "a" {
+				adds++
+			}
+			toks = append(toks, fmt.Sprintf("%s:%d", o, r.Intn(n)))
+		}
+		g.Case("hashcache", adds > 0, fmt.Sprintf("C07 hashcache %d %s", n, strings.Join(toks, " ")))
+	}
+
 	// ---- removeOpcodeRaw / removeOpcodeByData
-	for k := 0; k < g.N(3000, 100000); k++ {
+	for k := 0; k < g.N(2000, 40000); k++ {
 		sig := randSig(r)
 		mal := r.Chance(1, 5)
 		s := randScriptCode(r, sig, mal)
@@ -732,7 +858,7 @@ func (P) Generate(g *core.Gen) {
 	}
 
 	// ---- sigcache
-	for k := 0; k < g.N(300, 20000); k++ {
+	for k := 0; k < g.N(300, 5000); k++ {
 		n := 1 + r.Intn(10)
 		hs := [][]byte{r.Bytes(32), r.Bytes(32), r.Bytes(32)}
 		ss := [][]byte{r.Bytes(3), r.Bytes(3), nil}
